@@ -221,6 +221,57 @@ Example C12_example_ept_map : wf_ept_map ex_ept_map = true /\ in_range 4 (len (t
   /\ wf_ept_map {| em_obj := None; em_tower := []; em_entry_handle := None; em_max_towers := 0 |} = true.
 Proof. exact example_ept_map. Qed.
 
+(* ---- the edges of the well-formedness predicates: what the codecs do on the inputs wf_lengths / wf_ept_map /
+        wf_entry_handle / wf_bind_nak / wf_commands exclude (listed in PARTIAL of vlib/props/c12.py) ---- *)
+From V Require Import Proofs.RpcEdge.
+(* a security trailer on a request / response / fault whose header says auth_len = 0 - in particular a trailer with an
+   EMPTY auth value on an otherwise consistent PDU (C12_edge_example) - is not read back as a trailer (DCE/RPC:
+   auth_length = 0 means "no auth trailer"): its 8 octets come back as the tail of stub_data, and the decoded PDU packs
+   to the same octets *)
+Theorem C12_edge_trailer_request : forall m t fuel, rq_sec_trailer m = Some t -> wf_request (request_absorbed m t) = true ->
+  request_pack m = request_pack (request_absorbed m t)
+  /\ pdu_unpack fuel (request_pack m) = Ok (PRequest (request_absorbed m t), 0).
+Proof. exact edge_trailer_request. Qed.
+Print Assumptions C12_edge_trailer_request.
+Theorem C12_edge_trailer_response : forall m t fuel, rs_sec_trailer m = Some t -> wf_response (response_absorbed m t) = true ->
+  response_pack m = response_pack (response_absorbed m t)
+  /\ pdu_unpack fuel (response_pack m) = Ok (PResponse (response_absorbed m t), 0).
+Proof. exact edge_trailer_response. Qed.
+Print Assumptions C12_edge_trailer_response.
+Theorem C12_edge_trailer_fault : forall m t fuel, f_sec_trailer m = Some t -> wf_fault (fault_absorbed m t) = true ->
+  fault_pack m = fault_pack (fault_absorbed m t)
+  /\ pdu_unpack fuel (fault_pack m) = Ok (PFault (fault_absorbed m t), 0).
+Proof. exact edge_trailer_fault. Qed.
+Print Assumptions C12_edge_trailer_fault.
+Example C12_edge_example : rq_sec_trailer ex_edge_request = Some ex_edge_trailer /\ st_auth_value ex_edge_trailer = []
+  /\ h_auth_len (rq_header ex_edge_request) = len (st_auth_value ex_edge_trailer)
+  /\ h_frag_len (rq_header ex_edge_request) = len (request_pack ex_edge_request)
+  /\ wf_request (request_absorbed ex_edge_request ex_edge_trailer) = true.
+Proof. exact example_edge_trailer. Qed.
+(* a nil object UUID packs to the octets of "no object" and decodes to None; likewise an all-zero entry handle *)
+Theorem C12_edge_nil_object : forall m fuel, em_obj m = None -> wf_ept_map m = true ->
+  in_range 4 (len (tower_bytes (em_tower m))) = true -> (length (ept_map_pack m) <= fuel)%nat ->
+  ept_map_pack (ept_map_with_obj (Some (repeat 0 16)) m) = ept_map_pack m
+  /\ ept_map_unpack fuel (ept_map_pack (ept_map_with_obj (Some (repeat 0 16)) m)) = Ok (ept_map_norm m, len (em_tower m)).
+Proof. exact edge_nil_object. Qed.
+Print Assumptions C12_edge_nil_object.
+Theorem C12_edge_zero_handle : forall rest,
+  entry_handle_pack (Some (0, repeat 0 16)) = entry_handle_pack None
+  /\ entry_handle_unpack (entry_handle_pack (Some (0, repeat 0 16)) ++ rest) = Ok None.
+Proof. exact edge_zero_handle. Qed.
+Print Assumptions C12_edge_zero_handle.
+(* BindNak.pack emits no security trailer and BindNak._unpack returns sec_trailer=None: a trailer on the message is dropped *)
+Theorem C12_edge_bind_nak_trailer : forall m t fuel, wf_bind_nak m = true -> (length (bind_nak_pack m) <= fuel)%nat ->
+  bind_nak_pack (bind_nak_with_trailer t m) = bind_nak_pack m
+  /\ pdu_unpack fuel (bind_nak_pack (bind_nak_with_trailer t m)) = Ok (PBindNak m, len (bn_versions m)).
+Proof. exact edge_bind_nak_trailer. Qed.
+Print Assumptions C12_edge_bind_nak_trailer.
+(* the empty command list packs to the bare signature, which VerificationTrailer.unpack rejects *)
+Theorem C12_edge_vt_empty : forall fuel, verification_trailer_pack [] = c_VT_signature
+  /\ verification_trailer_unpack (S fuel) (verification_trailer_pack []) = Raise ValueError.
+Proof. exact edge_vt_empty. Qed.
+Print Assumptions C12_edge_vt_empty.
+
 (* ---- flows: the codecs of _rpc/_pdu.py, _request.py, _bind.py, _verification.py and _epm.py, regenerated as syntax on
    every run (gen/F_rpc.v) and run in the world Flow/World_rpc.v, ARE the model functions the theorems above are about.
    `cls` is the class the classmethod is defined on.
